@@ -106,6 +106,9 @@ def ops_alphabet(keys=KEYS, values=VALUES):
                 ("pop", k), ("pop_default", k), ("setdefault", k)]
         for v in values:
             ops += [("setitem", k, v), ("setdefault_v", k, v)]
+    # every object-list key of the documented default rule (and one near miss that is not a list key)
+    for lk in ["Classes", "styles", "SYMBOLS", "labels", "outputformats", "features", "scaletokens", "composites", "joins", "layer", "style"]:
+        ops += [("getitem", lk)]
     ops += [("update_map", (("A", 2), ("c", 3))), ("update_map", (("b", 5), ("B", 6))), ("update_pairs", (("Layers", (7,)), ("a", 8))),
             ("update_kwargs", (("A", 9),)), ("update_both", (("a", 1),), (("A", 2),)), ("update_empty",),
             ("construct_map", (("A", 1), ("a", 2), ("B", 3))), ("construct_pairs", (("B", 1), ("a", 2), ("b", 3))),
@@ -278,7 +281,8 @@ def apply_real(real, op, model_before: Model):
             if "zz" not in c or c["zz"] != 1:
                 return ("ok", "copy lost case-insensitive lookup")
             if model_before.factory:
-                if c["Styles"] != [] or "styles" not in c:
+                probe = next((k for k in sorted(OBJECT_LIST_KEYS) if k not in c), None)
+                if probe is not None and (c[probe.capitalize()] != [] or probe not in c):
                     return ("ok", "copy lost the default rule")
             else:
                 try:
